@@ -39,9 +39,9 @@ def chars(s):
     return list(s)
 
 
-def menus(tier, seed, part):
-    """Template / modification / slice menus of one TLC configuration."""
-    r = C.rng(17 + ord(part))
+def configs(tier, seed):
+    """The TLC configurations of one run: menus of node templates / modification literals / slices / host units
+    (inputs chosen here, rotated by the seed) and the bounds of the program shape."""
     u1, u2 = [("cm", "m"), ("m", "km"), ("km", "cm")][seed % 3]
     k = [3, 7, 9, 34, 12][seed % 5]
     f = [num(25, -1), num(34), num(125, -2), num(7, 1)][seed % 4]
@@ -56,28 +56,36 @@ def menus(tier, seed, part):
         {"key": "num", "shape": [3], "sl": [[1, -1]]},
         {"key": "num", "shape": [2, 2], "sl": [[-1, -1], [1, 1]]}, {"key": "num", "shape": [2, 2], "sl": [[0, 0]]},
         {"key": "num", "shape": [2, 2], "sl": [[1, 1], [0, 0]]}, {"key": "num", "shape": [2, 2], "sl": [[1, -1]]},
+        {"key": "num", "shape": [2, 2], "sl": [[1, 1], [-1, -1]]},
         {"key": "str", "shape": [], "sl": [[1, -1]]}, {"key": "str", "shape": [], "sl": [[2, 2]]},
+        {"key": "str", "shape": [], "sl": [[-1, 3]]},
     ]
-    if part == "A":      # scalars with units, hierarchy, prefix-sharing siblings, constants, declarations
-        T = [tpl("a", "float", f, u1), tpl("a", "int", num(k), u2), tpl("a", "float", 0, u1, has=False),
-             tpl("g.x", "float", num(k), u1, const=True), tpl("g.x", "int", num(k + 1)),
-             tpl("g.k.z", "bool", True), tpl("g.y", "str", chars(S1)),
-             tpl("gq.x", "float", f, "s"), tpl("p", "int", num(5)), tpl("p.x", "float", f, u2)]
-        M = [lit("float", num(2), u2), lit("float", num(4)), lit("int", num(6), u1), lit("int", num(8)),
-             lit("float", num(3), "s"), lit("bool", False), lit("str", chars(S2))]
-        sl = [s for s in slices if s["key"] == "str"]
-        hu = [u1, u2, "s"]
-    else:                # arrays, strings, slices
-        T = [tpl("v", "int", A1, "", (3,)), tpl("v", "int", A1, u1, (3,)), tpl("w", "int", A2, u1, (2, 2)),
-             tpl("g.m", "int", A2, "", (2, 2)), tpl("g.s", "str", chars(S1)), tpl("g.e", "int", num(k), u1),
-             tpl("t", "int", A1b[:2], "", (2,))]
-        M = [lit("int", A1b, "", (3,)), lit("int", A2b, "", (2, 2)), lit("str", chars(S2)), lit("int", num(8)),
-             lit("int", A1[:2], "", (2,))]
-        sl = slices
-        hu = [u1]
-    if tier == "quick":
-        r.shuffle(M)
-    return T, M, sl, hu
+    th = tier != "quick"
+    a_f, a_i, a_d = tpl("a", "float", f, u1), tpl("a", "int", num(k), u2), tpl("a", "float", 0, u1, has=False)
+    gx_c, gx_i = tpl("g.x", "float", num(k), u1, const=True), tpl("g.x", "int", num(k + 1))
+    gkz, gy = tpl("g.k.z", "bool", True), tpl("g.y", "str", chars(S1))
+    gqx, p_, px = tpl("gq.x", "float", f, "s"), tpl("p", "int", num(5)), tpl("p.x", "float", f, u2)
+    m_f2, m_f, m_i, m_i0 = lit("float", num(2), u2), lit("float", num(4)), lit("int", num(6), u1), lit("int", num(8))
+    m_s, m_b, m_t = lit("float", num(3), "s"), lit("bool", False), lit("str", chars(S2))
+    v1, v1u = tpl("v", "int", A1, "", (3,)), tpl("v", "int", A1, u1, (3,))
+    w2, gm = tpl("w", "int", A2, u1, (2, 2)), tpl("g.m", "int", A2, "", (2, 2))
+    gs, ge, t2 = tpl("g.s", "str", chars(S1)), tpl("g.e", "int", num(k), u1), tpl("t", "int", A1b[:2], "", (2,))
+    ma1, ma2, ma3 = lit("int", A1b, "", (3,)), lit("int", A2b, "", (2, 2)), lit("int", A1[:2], "", (2,))
+    B = lambda d, m, r, l, **kw: dict({"def": d, "mod": m, "ref": r, "late": l}, **kw)
+    cfgs = [
+        dict(name="units", T=[a_f, a_i, a_d, gx_c, px], M=[m_f2, m_f, m_i, m_s], SL=[], HU=[u1, u2, "s"],
+             bounds=B(3 if th else 2, 2 if th else 1, 1, 1, kinds=["inj"]), modes=[]),
+        dict(name="imports", T=[a_i, a_d, gx_c, gx_i, gkz, gy, gqx, p_, px], M=[m_f2, m_i0, m_b, m_t], SL=[], HU=[],
+             bounds=B(4 if th else 3, 1, 1, 1, kinds=["imp"]), modes=[]),
+        dict(name="modes", T=[a_f, a_d, gx_i, gy] + ([gx_c, gkz] if th else []), M=[m_f2, m_i0, m_t], SL=slices[8:9], HU=[u2],
+             bounds=B(2, 1, 1, 1, fewhosts=True), modes=["base", "remote"]),
+        dict(name="arrays", T=[v1, v1u, w2, gm, gs, ge, t2], M=[ma1, ma2, m_t, m_i0, ma3], SL=slices, HU=[u1],
+             bounds=B(3 if th else 2, 1, 1, 1, fewhosts=True), modes=["remote"] if th else []),
+        dict(name="chain", T=[a_f, gx_i] + ([w2, a_d] if th else []), M=[m_f2, m_i0] + ([ma2] if th else []),
+             SL=slices[3:4] + slices[5:6] if th else [], HU=[u2],
+             bounds=B(2, 1, 2, 1, fewhosts=True), modes=["base", "remote"]),
+    ]
+    return cfgs
 
 
 def mc_module(T, M, SL, HU, bounds, modes, copy_on_parse, emit):
@@ -95,6 +103,7 @@ MCHostUnits == {C.tla_str(set(HU))}
 MCModes == {C.tla_str(set(modes))}
 MCInjHosts == <<<<"b">>, <<"c">>, <<"d">>>>
 MCImpHosts == {seq(imphosts)}
+MCRefKinds == {C.tla_str(set(bounds.get('kinds', ['inj', 'imp'])))}
 ====
 """, f"""CONSTANTS
   Templates <- MCTemplates
@@ -104,6 +113,7 @@ MCImpHosts == {seq(imphosts)}
   Modes <- MCModes
   InjHosts <- MCInjHosts
   ImpHosts <- MCImpHosts
+  RefKinds <- MCRefKinds
   MaxDef = {bounds['def']}
   MaxMod = {bounds['mod']}
   MaxRef = {bounds['ref']}
@@ -118,8 +128,8 @@ CHECK_DEADLOCK FALSE
 """
 
 
-def run_tlc(wd, T, M, SL, HU, bounds, modes, copy_on_parse=True, emit=True, coverage=False):
-    mod, cfg = mc_module(T, M, SL, HU, bounds, modes, copy_on_parse, emit)
+def run_tlc(wd, cf, copy_on_parse=True, emit=True, coverage=False):
+    mod, cfg = mc_module(cf["T"], cf["M"], cf["SL"], cf["HU"], cf["bounds"], cf["modes"], copy_on_parse, emit)
     with open(os.path.join(wd, "DipRefsMC.tla"), "w") as f:
         f.write(mod)
     return C.run_tlc(wd, "DipRefsMC", cfg, coverage=coverage, want_records=emit)
